@@ -15,7 +15,7 @@ import (
 
 func init() {
 	register(&Prop{ID: "C03", Run: runC03, MinNontrivial: 500,
-		Rule:        "cases = a conforming record with 0-3 injected faults from {Version 1.1/empty/absent; Destination other/near-miss/empty/absent; Response Issuer absent/other/empty; assertion Issuer same three; Status absent, StatusCode absent, non-Success, Success only at second level; zero assertions; Subject / SubjectConfirmation / SubjectConfirmationData absent; method holder-of-key / sender-vouches / empty; Recipient absent/other/near-miss; NotOnOrAfter absent/malformed/past}, 1-4 assertions with the fault in position k, then signed by the IdP (Response, assertions or both) or presented to a skip-signature SP, IdP issuer configured or empty; plus direct Validate(*types.Response) calls on hand-built structs and a multi-SubjectConfirmation class (implication only); oracle: reference validator over the record -> set V of typed errors; accept iff V empty; a rejection's type+key is a member of V (wrapped in ErrVerification through RetrieveAssertionInfo); non-trivial = signature processing passed and the profile logic decided; distinct by parameter tuple; SP clocks off the whole second with bounds inside the current second; configured ACS / issuer values containing list, glob and URL metacharacters; near-miss values (trimmed, case-folded, percent- or entity-encoded once more, cut at ?/#, list pieces, other configured fields) for Destination, Recipient and both Issuers",
+		Rule:        "cases = a conforming record with 0-3 injected faults from {Version 1.1/empty/absent; Destination other/near-miss/empty/absent; Response Issuer absent/other/empty; assertion Issuer same three; Status absent, StatusCode absent, non-Success, Success only at second level; zero assertions; Subject / SubjectConfirmation / SubjectConfirmationData absent; method holder-of-key / sender-vouches / empty; Recipient absent/other/near-miss; NotOnOrAfter absent/malformed/past}, 1-4 assertions with the fault in position k, then signed by the IdP (Response, assertions or both) or presented to a skip-signature SP, IdP issuer configured or empty; plus direct Validate(*types.Response) calls on hand-built structs and a multi-SubjectConfirmation class (implication only); oracle: reference validator over the record -> set V of typed errors; accept iff V empty; a rejection's type+key is a member of V (wrapped in ErrVerification through RetrieveAssertionInfo); non-trivial = signature processing passed and the profile logic decided; distinct by parameter tuple; SP clocks off the whole second with bounds inside the current second; configured ACS / issuer values containing list, glob and URL metacharacters; near-miss values (trimmed, case-folded, percent- or entity-encoded once more, cut at ?/#, list pieces, other configured fields) for Destination, Recipient and both Issuers; unreadable unchecked timestamps in an earlier assertion; an accepted Response returns as many assertions as it carries",
 		Assumptions: []string{"check order is not promised: any member of V is an acceptable rejection", "with several SubjectConfirmations only 'accepted => a valid bearer confirmation exists' is asserted (encoding/xml merges repeated singleton children)"}})
 }
 
